@@ -6,6 +6,7 @@ import (
 	"encoding/gob"
 	"fmt"
 	"io"
+	"math"
 	"sync"
 	"time"
 )
@@ -155,6 +156,11 @@ func LoadFromCompiled(compiled *CompiledTemplate, env *Environment, engine *Engi
 
 // writeString writes a string to a buffer with length prefix
 func writeString(w io.Writer, s string) error {
+	// The length prefix is 32 bits wide: a longer string cannot be represented
+	if uint64(len(s)) > math.MaxUint32 {
+		return fmt.Errorf("string of %d bytes is too long to serialize", len(s))
+	}
+
 	// Write the string length as uint32
 	if err := binary.Write(w, binary.LittleEndian, uint32(len(s))); err != nil {
 		return err
@@ -174,6 +180,11 @@ func readString(r io.Reader) (string, error) {
 	}
 
 	// Read string data
+	// Do not allocate what the input cannot deliver: the length comes from untrusted data
+	if lr, ok := r.(interface{ Len() int }); ok && uint64(length) > uint64(lr.Len()) {
+		return "", io.ErrUnexpectedEOF
+	}
+
 	data := make([]byte, length)
 	if _, err := io.ReadFull(r, data); err != nil {
 		return "", err
@@ -214,6 +225,9 @@ func SerializeCompiledTemplate(compiled *CompiledTemplate) ([]byte, error) {
 	}
 
 	// Write AST data length followed by data
+	if uint64(len(compiled.AST)) > math.MaxUint32 {
+		return nil, fmt.Errorf("failed to serialize AST: %d bytes is too long", len(compiled.AST))
+	}
 	if err := binary.Write(buf, binary.LittleEndian, uint32(len(compiled.AST))); err != nil {
 		return nil, fmt.Errorf("failed to serialize AST length: %w", err)
 	}
@@ -289,6 +303,9 @@ func deserializeBinaryFormat(data []byte) (*CompiledTemplate, error) {
 		return nil, fmt.Errorf("failed to read AST length: %w", err)
 	}
 
+	if uint64(astLength) > uint64(r.Len()) {
+		return nil, fmt.Errorf("failed to read AST data: %w", io.ErrUnexpectedEOF)
+	}
 	compiled.AST = make([]byte, astLength)
 	if _, err := io.ReadFull(r, compiled.AST); err != nil {
 		return nil, fmt.Errorf("failed to read AST data: %w", err)
